@@ -22,8 +22,11 @@ LEVEL = 'exploration'
 RULE = (
     'Hypothesis: file with one dimension (1-20 records), an independent '
     'variable (increasing seconds, at any position among the variables) and '
-    '1-5 dependent variables (identifier names incl. name_unit forms, units '
-    'without commas, f8/f4), values 0 or +-[1e-30,1e30] incl. 7-digit '
+    '1-5 (in ~4% of cases 85-120, header of 100-140 lines) dependent '
+    'variables (identifier names incl. name_unit forms, units '
+    'without commas, f8/f4), values 0 or +-[1e-30,1e30] (f8 also up to '
+    '1e300 / down to 1e-300 and the extremes of the double range) incl. '
+    '7-digit '
     'rounding boundaries, per-variable missing codes from typical (-9999, '
     '-99999, -9999999, -8888.8, -999.9, 9999999) and adversarial (>= 8 '
     'significant digits: -99999999, -9999.9999, ...; text of 12-18 '
@@ -125,6 +128,14 @@ def values(width):
                             9.9999994e-11, 1e30, 1e-30, 123456.75,
                             0.1, 1.0 / 3.0, 2.5e-7, 99999.995])
     pos = st.one_of(mag, plain, plain, edge)
+    if width == 64:
+        # doubles beyond the single precision range are finite values too
+        wide = st.one_of(
+            st.floats(min_value=1e30, max_value=1e300),
+            st.floats(min_value=1e-300, max_value=1e-30),
+            st.sampled_from([1e300, 1e-300, 3.5e38, 1e39, 1e-46, 1.5e-45,
+                             1.7976931348623157e308, 2.5e-308]))
+        pos = st.one_of(mag, plain, plain, edge, wide)
     out = st.one_of(st.just(0.0), pos, pos, pos.map(lambda v: -v),
                     pos.map(lambda v: -v))
     if width == 32:
@@ -134,9 +145,19 @@ def values(width):
 
 @st.composite
 def cases(draw, tier='quick'):
-    nrec = draw(st.sampled_from([1, 1, 2, 3, 4, 5, 6, 8, 10, 13, 16, 20]))
-    ndep = draw(st.sampled_from([1, 2, 2, 3, 3, 4, 5]))
-    names = list(draw(st.permutations(NAMES)))[:ndep]
+    # a small share of files with 85-120 dependent variables: the header
+    # then has 100-140 lines ("NNN, 1001" on line 1)
+    wide = draw(st.sampled_from([False] * 24 + [True]))
+    if wide:
+        nrec = draw(st.sampled_from([1, 1, 2]))
+        ndep = draw(st.sampled_from([85, 86, 90, 99, 100, 110, 120]))
+        names = ['V%03d_ppbv' % k if k % 7 else 'X%03d' % k
+                 for k in range(ndep)]
+    else:
+        nrec = draw(st.sampled_from([1, 1, 2, 3, 4, 5, 6, 8, 10, 13, 16,
+                                     20]))
+        ndep = draw(st.sampled_from([1, 2, 2, 3, 3, 4, 5]))
+        names = list(draw(st.permutations(NAMES)))[:ndep]
     long_ok = draw(st.sampled_from([False, False, False, True]))
     t0 = draw(st.sampled_from([0.0, 63481.0, 86399.5, 3600.25, 12.0]))
     steps = draw(st.lists(st.sampled_from([1.0, 0.5, 19.0, 60.0, 0.1, 3600.0]),
@@ -266,7 +287,7 @@ def _long_codes(spec):
 
 def _nlines(spec):
     """lines of the first output: header (15 + ndep + attrs) + records"""
-    nattr = len(spec['attrs']) + (1 if spec['indep']['definition'] else 0)
+    nattr = len(spec['attrs'])
     return 15 + len(spec['deps']) + nattr + len(spec['indep']['values'])
 
 
@@ -465,6 +486,13 @@ def check_case(spec):
         r.label('no-WDATE')
     if _nlines(spec) < 28:
         r.label('lines<28')
+    nhead = _nlines(spec) - n
+    if nhead >= 100:
+        r.label('header>=100lines')
+    if any(v != 0 and (v < 1e-45 or v > 3.4e38) for d in deps
+           for v, m in zip(d['values'], d['mask']) if not m
+           for v in [abs(v)]):
+        r.label('beyond-float32-range')
     allv = [abs(v) for d in deps for v, m in zip(d['values'], d['mask'])
             if not m]
     if any(v != 0 and (v < 1e-10 or v > 1e10) for v in allv):
